@@ -154,7 +154,12 @@ func Run(r *core.Run) {
 		if j.sched != nil {
 			p.MultihashAlgorithms = codes
 		}
+		// chains with anchoring windows are read by a parser whose anchor time validator refuses every window (a node reading its
+		// history long after the windows have passed): reveal values and commitments are reported in batch mode, which does not ask it
 		parser := operationparser.New(p)
+		if j.flavour == 1 {
+			parser = operationparser.New(p, operationparser.WithAnchorTimeValidator(refuseAll{}))
+		}
 		code := uint64(j.code)
 		codeAt := func(i int) uint64 { // algorithm of the commitments made by create (0) / step i-1
 			if j.sched == nil {
@@ -251,4 +256,14 @@ func Run(r *core.Run) {
 	r.Require("edge-u", 10)
 	r.Require("edge-r", 10)
 	r.Require("edge-d", 10)
+}
+
+// refuseAll is an anchor time validator for which every window has expired.
+type refuseAll struct{}
+
+func (refuseAll) Validate(from, until int64) error {
+	if from == 0 && until == 0 {
+		return nil
+	}
+	return fmt.Errorf("operation expired (window %d-%d)", from, until)
 }
